@@ -145,7 +145,7 @@ fn rpc_name(r: &Rpc) -> &'static str {
         Rpc::Query { .. } => "Query",
         Rpc::BulkQuery { .. } => "BulkQuery",
         Rpc::Search { .. } => "Search",
-        Rpc::BulkSearch { .. } => "BulkSearch",
+        Rpc::BulkSearch { .. } | Rpc::BulkSearchMixed { .. } => "BulkSearch",
         Rpc::UpdateMetadata { .. } => "UpdateMetadata",
         Rpc::Delete { .. } => "Delete",
         Rpc::BatchDeleteIds { .. } | Rpc::BatchDeleteFilter { .. } => "BatchDelete",
@@ -293,6 +293,57 @@ fn check_stream(rt: &tokio::runtime::Runtime, srv: &Srv, load: bool, names: &[&s
         return false;
     }
     true
+}
+
+/// Malformed filters on the SEARCH RPCs: every malformed filter as a unary Search, and as the
+/// middle item of a BulkSearch stream [valid, malformed, valid]. Every request gets an answer:
+/// the unary call returns a response or a status; the stream yields one element (response or
+/// per-item status) per request, or ends with a status — it must not end cleanly with fewer
+/// answers than requests. Nothing changes, and valid requests are served afterwards.
+fn check_malformed_search(rt: &tokio::runtime::Runtime, name: &str, flt: &Flt, metric: &str, st: &mut Stats) {
+    let srv = build(&cfg(None, metric));
+    for (id, v) in [(1u64, [1.0f32, 0.0, 0.0]), (2, [0.0, 1.0, 0.0]), (3, [0.6, 0.8, 0.0])] {
+        let _ = rt.block_on(call(&srv, &Rpc::Insert { t: 0, item: item(id, &v, "", 0) }));
+    }
+    let before = census(&srv);
+    let q = vec![0.6f32, 0.8, 0.0];
+    let unary = Rpc::Search { t: 0, q: q.clone(), k: 2, ns: "".into(), flt: flt.clone(), legacy: vec![], emb: false, ef: 0 };
+    let stream = Rpc::BulkSearchMixed { t: 0, items: vec![(q.clone(), 2, Flt::None), (q.clone(), 2, flt.clone()), (vec![0.0, 1.0, 0.0], 1, Flt::None)] };
+    for (what, rpc, nreq) in [("Search", &unary, 1usize), ("BulkSearch", &stream, 3)] {
+        st.requests += 1;
+        let ctx = |detail: String| json!({"engine":"srvmc","check":"C15","request":format!("{what} with malformed filter={name}"),"metric":metric,"detail":detail});
+        let resp = match std::panic::catch_unwind(std::panic::AssertUnwindSafe(|| rt.block_on(async { tokio::time::timeout(std::time::Duration::from_secs(30), call(&srv, rpc)).await }))) {
+            Err(_) => json!({"status": "Internal(panic contained by the tower layer)"}),
+            Ok(Err(_)) => {
+                st.viol.push((format!("C15|{what}|no-answer-within-horizon"), ctx("request did not complete within 30 s".into())));
+                return;
+            }
+            Ok(Ok(v)) => v,
+        };
+        if format!("{resp}").contains("HANG") {
+            st.viol.push((format!("C15|{what}|stream-hang"), ctx(format!("{resp}"))));
+            return;
+        }
+        if let Some(items) = resp.get("stream").and_then(|x| x.as_array()) {
+            let ended_with_status = items.last().map(|l| l.get("status").is_some()).unwrap_or(false);
+            st.outcomes.insert(format!("BulkSearch-malformed[{name}]:{}answers{}", items.len(), if ended_with_status { "+status" } else { "" }));
+            if items.len() < nreq && !ended_with_status {
+                st.viol.push((
+                    "C15|BulkSearch|stream-ends-cleanly-with-fewer-answers-than-requests".into(),
+                    ctx(format!("{nreq} requests sent (the middle one with the malformed filter), {} answers received and no status: {resp}", items.len())),
+                ));
+                return;
+            }
+        }
+        if census(&srv) != before {
+            st.viol.push((format!("C15|{what}|read-changed-collection"), ctx(format!("{resp}"))));
+            return;
+        }
+    }
+    let c = rt.block_on(call(&srv, &Rpc::Search { t: 0, q, k: 2, ns: "".into(), flt: Flt::None, legacy: vec![], emb: false, ef: 0 }));
+    if is_refusal(&c) || c.get("results").and_then(|r| r.as_array()).map(|a| a.is_empty()).unwrap_or(true) {
+        st.viol.push(("C15|Search|server-stops-serving-valid-requests".into(), json!({"engine":"srvmc","check":"C15","request":format!("after malformed filter={name}"),"metric":metric,"detail":format!("a valid Search is answered {c}")})));
+    }
 }
 
 /// "Keeps serving later requests": every read request of the grid (plus large-k searches with a
@@ -483,6 +534,18 @@ pub fn worker(wi: usize, wn: usize, tier: &str) {
             }
             check_repeats(&rt, label, rpc, metric, &mut st);
         }
+        // --- malformed filters on Search / BulkSearch (incl. nested all-untyped OR / AND forms)
+        let mut mfs = malformed_filters();
+        mfs.push(("or[hole,hole]", Flt::Or(vec![Flt::Hole, Flt::Hole])));
+        mfs.push(("not(or[hole])", Flt::Not(Box::new(Flt::Or(vec![Flt::Hole])))));
+        mfs.push(("and[hole,hole]", Flt::And(vec![Flt::Hole, Flt::Hole])));
+        mfs.push(("or[and[hole],not-without-operand]", Flt::Or(vec![Flt::And(vec![Flt::Hole]), Flt::Not(Box::new(Flt::None))])));
+        for (mi, (name, flt)) in mfs.iter().enumerate() {
+            if (mi + idx + 3) % wn != wi {
+                continue;
+            }
+            check_malformed_search(&rt, name, flt, metric, &mut st);
+        }
         // --- bare malformed filters on BatchDelete
         for (mi, (name, flt)) in malformed_filters().iter().enumerate() {
             if (mi + idx) % wn != wi {
@@ -642,7 +705,7 @@ pub fn run(tier: &str, replay: Option<&str>) -> i32 {
     }
     ev.set("evaluations", tot["requests"] + tot["tower"] + tot["malformed"]);
     ev.set("distinct_nontrivial", tot["refused"]);
-    ev.set("rule", "per RPC the cross product of per-field boundary lists (vector: valid/empty/dim-1/dim+1/4097/zero/NaN/+-Inf/1e30/f32::MAX/subnormal; id: 0,1,2^32-1,2^32,2^64-1; k: 0,1,1000,1001,2^32-1; ef: 0,1,10000,10001; filters: empty forms, 200/201-deep NOT, 10^4-value IN, NaN range, reserved key; namespace: empty/5000 chars; metadata: plain/reserved-key spoof/300 keys; batch sizes 0,1,10000,10001), singly on a persistent server with pre-existing documents, and every BulkInsert / BulkLoadHnsw stream of length <= 3 over 9 item classes (valid, duplicate, NaN, +Inf, 1e30, dim+1, id 0, id 2^32); oracle: an answer within the horizon, refused => canonical census unchanged, accepted => stored exactly as given, no non-finite vector ever stored, a following valid insert succeeds, census after restart equals the live one; every single request also goes through the tower stack (panic containment layer + generated server) as raw frames, plus truncated / mis-sized / corrupted frames on four paths: a grpc-status must come back. non-trivial = refused requests; 14 structurally malformed filters (NotFilter without operand, filter without type, range without bound, empty AND/OR, singly and nested) sent BARE as BatchDelete{filter} to a populated persistent server: answered, refused => unchanged, accepted => only documents the reference matcher metadata_filter::matches selects are removed, census after restart == live");
+    ev.set("rule", "per RPC the cross product of per-field boundary lists (vector: valid/empty/dim-1/dim+1/4097/zero/NaN/+-Inf/1e30/f32::MAX/subnormal; id: 0,1,2^32-1,2^32,2^64-1; k: 0,1,1000,1001,2^32-1; ef: 0,1,10000,10001; filters: empty forms, 200/201-deep NOT, 10^4-value IN, NaN range, reserved key; namespace: empty/5000 chars; metadata: plain/reserved-key spoof/300 keys; batch sizes 0,1,10000,10001), singly on a persistent server with pre-existing documents, and every BulkInsert / BulkLoadHnsw stream of length <= 3 over 9 item classes (valid, duplicate, NaN, +Inf, 1e30, dim+1, id 0, id 2^32); oracle: an answer within the horizon, refused => canonical census unchanged, accepted => stored exactly as given, no non-finite vector ever stored, a following valid insert succeeds, census after restart equals the live one; every single request also goes through the tower stack (panic containment layer + generated server) as raw frames, plus truncated / mis-sized / corrupted frames on four paths: a grpc-status must come back. non-trivial = refused requests; 18 structurally malformed filters as unary Search and as the middle item of a BulkSearch stream [valid, malformed, valid] (answered; the stream never ends cleanly with fewer answers than requests); 14 structurally malformed filters (NotFilter without operand, filter without type, range without bound, empty AND/OR, singly and nested) sent BARE as BatchDelete{filter} to a populated persistent server: answered, refused => unchanged, accepted => only documents the reference matcher metadata_filter::matches selects are removed, census after restart == live");
     ev.set("samples", json!([single_requests()[7].0, single_requests()[200].0, {"stream": ["valid-a", "nan", "valid-b"]}]));
     ev.set("exhaustive", true);
     ev.set("requests_refused", tot["refused"]);
